@@ -468,29 +468,36 @@ theorem validDate_bounds {y m d : Nat} (h : Spec.Instant.validDate y m d = true)
 
 theorem intOfAscii_none : intOfAscii none = .ok 0 := rfl
 
-theorem dby_succ (y : Nat) (hy : 1 ≤ y) :
-    daysBeforeYear (y + 1) = daysBeforeYear y + (if isLeap y then 366 else 365) := by
-  unfold daysBeforeYear isLeap
-  simp only [Nat.add_sub_cancel]
-  obtain ⟨Y, rfl⟩ : ∃ Y, y = Y + 1 := ⟨y - 1, by omega⟩
-  simp only [Nat.add_sub_cancel]
-  by_cases h4 : (Y + 1) % 4 = 0 <;> by_cases h100 : (Y + 1) % 100 = 0 <;> by_cases h400 : (Y + 1) % 400 = 0 <;>
-    simp [h4, h100, h400] <;> omega
-
-theorem dby_le (y : Nat) (hy : y ≤ 10000) : daysBeforeYear y ≤ 3652059 := by
-  unfold daysBeforeYear
-  simp only []
-  omega
-
 theorem ymd2ord_le_max (y m d : Nat) (y1 : 1 ≤ y) (y2 : y ≤ 9999) (hm : 1 ≤ m ∧ m ≤ 12)
     (hd : d ≤ daysInMonth y m) : ymd2ord y m d ≤ maxOrdinal := by
-  have h1 := dby_succ y y1
-  have h2 := dby_le (y + 1) (by omega)
-  have h3 := (dbm_dim_le (isLeap y) m hm).1
+  obtain ⟨a, b, c, e, hb, hc, he, rfl⟩ := year_decomp y y1
+  have hleap := isLeap_decomp a b c e hb hc he
+  have hdby := dby_decomp a b c e hb hc he
+  have h3 := (dbm_dim_le (isLeap (400 * a + 100 * b + 4 * c + e + 1)) m hm).1
   rw [daysInMonth_eq] at hd
   unfold ymd2ord maxOrdinal
-  rw [daysBeforeMonth_eq]
-  cases hl : isLeap y <;> rw [hl] at h1 h3 hd <;> simp at h1 h3 <;> omega
+  rw [daysBeforeMonth_eq, hdby]
+  generalize isLeap (400 * a + 100 * b + 4 * c + e + 1) = L at *
+  have hk : dbmL L m + d ≤ 365 ∨ (dbmL L m + d ≤ 366 ∧ e = 3 ∧ (c ≠ 24 ∨ b = 3)) := by
+    cases L
+    · left; simp at h3; omega
+    · right
+      have : e = 3 ∧ (c ≠ 24 ∨ b = 3) := by have := hleap.symm; simpa using this
+      simp at h3
+      exact ⟨by omega, this⟩
+  by_cases ha : a ≤ 23
+  · omega
+  · have ha24 : a = 24 := by omega
+    subst ha24
+    by_cases hb2 : b ≤ 2
+    · omega
+    · have hb3 : b = 3 := by omega
+      subst hb3
+      by_cases hc23 : c ≤ 23
+      · omega
+      · have hc24 : c = 24 := by omega
+        subst hc24
+        omega
 
 theorem range_us (I : Int) (h : minInstant ≤ I ∧ I < endInstant) :
     usPerDay ≤ 1000 * I ∧ 1000 * I < ((maxOrdinal : Nat) + 1 : Int) * usPerDay := by
@@ -782,10 +789,28 @@ theorem pyStrNat_year (y : Nat) (h1 : 1000 ≤ y) (h2 : y < 10000) : pyStrNat y 
     · exact dch_congr (by omega)
     · congr 1; exact dch_congr (by omega)
 
-theorem natDigits_small : ∀ n, n < 25 →
-    natDigits n ≠ [] ∧ (natDigits n).all (· < 10) = true ∧ hoursVal (natDigits n) = n
-    ∧ (natDigits n).map dch = pyStrNat n ∧ (natDigits n).length ≤ 2 := by decide +kernel
+theorem natDigits_lt10 (n : Nat) (h : n < 10) : natDigits n = [n] := by
+  unfold natDigits
+  rw [natDigitsAux, if_pos h]
 
+theorem natDigits_lt100 (n : Nat) (h1 : 10 ≤ n) (h2 : n < 100) : natDigits n = [n / 10, n % 10] := by
+  obtain ⟨k, rfl⟩ : ∃ k, n = k + 1 := ⟨n - 1, by omega⟩
+  unfold natDigits
+  rw [natDigitsAux, if_neg (by omega), natDigitsAux, if_pos (by omega)]
+
+theorem natDigits_small (n : Nat) (hn : n < 25) :
+    natDigits n ≠ [] ∧ (natDigits n).all (· < 10) = true ∧ hoursVal (natDigits n) = n
+    ∧ (natDigits n).map dch = pyStrNat n ∧ (natDigits n).length ≤ 2 := by
+  unfold pyStrNat
+  by_cases h : n < 10
+  · rw [natDigits_lt10 n h]
+    refine ⟨by simp, by simp [h], by simp [hoursVal], ?_, by simp⟩
+    simp [digitChar_eq_dch n h]
+  · rw [natDigits_lt100 n (by omega) (by omega)]
+    refine ⟨by simp, ?_, ?_, ?_, by simp⟩
+    · simp; omega
+    · simp [hoursVal]; omega
+    · simp [digitChar_eq_dch (n / 10) (by omega), digitChar_eq_dch (n % 10) (by omega)]
 theorem ord2ymd_year_ge (n : Nat) (h : 364878 ≤ n) : 1000 ≤ (ord2ymd n).1 := by
   unfold ord2ymd
   simp only []
@@ -863,17 +888,342 @@ theorem canonOff_wf (offMin : Int) (name : Option Str) (hr : -720 ≤ offMin ∧
     | none => rfl
     | some n => simpa using hname n rfl
 
+theorem utcoffset_not (tz : Tz) (hr : -usPerDay < tz.offUs ∧ tz.offUs < usPerDay) :
+    ¬ (tz.offUs ≤ -usPerDay ∨ tz.offUs ≥ usPerDay) := by omega
+
 theorem utcoffset_some (tz : Tz) (hr : -usPerDay < tz.offUs ∧ tz.offUs < usPerDay) :
     utcoffset (some tz) = .ok (some tz.offUs) := by
-  have : ¬ (tz.offUs ≤ -usPerDay ∨ tz.offUs ≥ usPerDay) := by omega
-  simp [utcoffset, this]
+  unfold utcoffset
+  simp only []
+  rw [if_neg (utcoffset_not tz hr)]
 
+/-- (the discriminant `fromUs …` is generalised before rewriting: the kernel must never try to evaluate it) -/
 theorem formatDatetime_eq (timeOnly : Bool) (f b : Fields) (tz : Tz)
     (hr : -usPerDay < tz.offUs ∧ tz.offUs < usPerDay)
     (hb : fromUs (toUs f.year f.month f.day f.hour f.minute f.second f.us + 500) = .ok b) :
     formatDatetime timeOnly f (some tz)
       = .ok ((if timeOnly then strftimeHMS b else strftimeYmdHMS b) ++ '.' :: pad3 (b.us / 1000)
               ++ '[' :: formatOffset tz.offUs tz.name ++ [']']) := by
-  simp only [formatDatetime, utcoffset_some tz hr, hb, bind, Except.bind, pure, Except.pure]
+  unfold formatDatetime
+  generalize fromUs (toUs f.year f.month f.day f.hour f.minute f.second f.us + 500) = r at hb ⊢
+  subst hb
+  rw [utcoffset_some tz hr]
+  rfl
 
+/-! ### the executable recogniser `Spec.Instant.parse` is sound for `InNotation` -/
+
+theorem dval_eq_digitVal (c : Char) : dval c = digitVal c := rfl
+
+theorem takeNum2_inv (s r : Str) (v : Nat) (h : takeNum 2 0 s = some (v, r)) : s = d2 v ++ r := by
+  match s, h with
+  | a :: b :: r', h =>
+    simp only [takeNum, dval_eq_digitVal] at h
+    cases ha : digitVal a with
+    | none => simp [ha] at h
+    | some ka =>
+      cases hb : digitVal b with
+      | none => simp [ha, hb] at h
+      | some kb =>
+        simp only [ha, hb, Option.some.injEq, Prod.mk.injEq] at h
+        obtain ⟨hv, hr⟩ := h
+        subst hr
+        have hn : natOfAscii [a, b] = some v := by
+          simp only [natOfAscii, digitsVal, ha, hb]; rw [← hv]
+        obtain ⟨_, e⟩ := natOfAscii2_inv a b v hn
+        rw [← e]; rfl
+  | [a], h => simp [takeNum] at h; cases hd : dval a <;> simp [hd] at h
+  | [], h => simp [takeNum] at h
+
+theorem natOfAscii3_inv (a b c : Char) (n : Nat) (h : natOfAscii [a, b, c] = some n) :
+    n < 1000 ∧ [a, b, c] = d3 n := by
+  simp only [natOfAscii, digitsVal] at h
+  cases ha : digitVal a with
+  | none => simp [ha] at h
+  | some ka =>
+    cases hb : digitVal b with
+    | none => simp [ha, hb] at h
+    | some kb =>
+      cases hc : digitVal c with
+      | none => simp [ha, hb, hc] at h
+      | some kc =>
+        simp only [ha, hb, hc, Option.some.injEq] at h
+        obtain ⟨la, ea⟩ := digitVal_some a ka ha
+        obtain ⟨lb, eb⟩ := digitVal_some b kb hb
+        obtain ⟨lc, ec⟩ := digitVal_some c kc hc
+        subst h
+        refine ⟨by omega, ?_⟩
+        rw [ea, eb, ec, d3]
+        congr 1
+        · exact dch_congr (by omega)
+        · congr 1
+          · exact dch_congr (by omega)
+          · congr 1; exact dch_congr (by omega)
+
+theorem takeNum3_inv (s r : Str) (v : Nat) (h : takeNum 3 0 s = some (v, r)) : s = d3 v ++ r := by
+  match s, h with
+  | a :: b :: c :: r', h =>
+    simp only [takeNum, dval_eq_digitVal] at h
+    cases ha : digitVal a with
+    | none => simp [ha] at h
+    | some ka =>
+      cases hb : digitVal b with
+      | none => simp [ha, hb] at h
+      | some kb =>
+        cases hc : digitVal c with
+        | none => simp [ha, hb, hc] at h
+        | some kc =>
+          simp only [ha, hb, hc, Option.some.injEq, Prod.mk.injEq] at h
+          obtain ⟨hv, hr⟩ := h
+          subst hr
+          have hn : natOfAscii [a, b, c] = some v := by
+            simp only [natOfAscii, digitsVal, ha, hb, hc]; rw [← hv]
+          obtain ⟨_, e⟩ := natOfAscii3_inv a b c v hn
+          rw [← e]; rfl
+  | [a, b], h =>
+    simp [takeNum] at h
+    cases hd : dval a <;> simp [hd] at h
+    cases he : dval b <;> simp [he] at h
+  | [a], h => simp [takeNum] at h; cases hd : dval a <;> simp [hd] at h
+  | [], h => simp [takeNum] at h
+
+theorem takeNum4_inv (s r : Str) (v : Nat) (h : takeNum 4 0 s = some (v, r)) : s = d4 v ++ r := by
+  match s, h with
+  | a :: b :: c :: d :: r', h =>
+    simp only [takeNum, dval_eq_digitVal] at h
+    cases ha : digitVal a with
+    | none => simp [ha] at h
+    | some ka =>
+      cases hb : digitVal b with
+      | none => simp [ha, hb] at h
+      | some kb =>
+        cases hc : digitVal c with
+        | none => simp [ha, hb, hc] at h
+        | some kc =>
+          cases hd : digitVal d with
+          | none => simp [ha, hb, hc, hd] at h
+          | some kd =>
+            simp only [ha, hb, hc, hd, Option.some.injEq, Prod.mk.injEq] at h
+            obtain ⟨hv, hr⟩ := h
+            subst hr
+            have hn : natOfAscii [a, b, c, d] = some v := by
+              simp only [natOfAscii, digitsVal, ha, hb, hc, hd]; rw [← hv]
+            obtain ⟨_, e⟩ := natOfAscii4_inv a b c d v hn
+            rw [← e]; rfl
+  | [a, b, c], h =>
+    simp [takeNum] at h
+    cases hd : dval a <;> simp [hd] at h
+    cases he : dval b <;> simp [he] at h
+    cases hf : dval c <;> simp [hf] at h
+  | [a, b], h =>
+    simp [takeNum] at h
+    cases hd : dval a <;> simp [hd] at h
+    cases he : dval b <;> simp [he] at h
+  | [a], h => simp [takeNum] at h; cases hd : dval a <;> simp [hd] at h
+  | [], h => simp [takeNum] at h
+
+theorem spanDigits_inv (t : Str) : t = ((spanDigits t).1.map dch) ++ (spanDigits t).2 := by
+  induction t with
+  | nil => rfl
+  | cons c cs ih =>
+    unfold spanDigits
+    cases hd : dval c with
+    | none => simp
+    | some k =>
+      simp only
+      obtain ⟨_, e⟩ := digitVal_some c k hd
+      rw [List.map_cons, List.cons_append, ← ih, ← e]
+
+theorem takeMinutes_inv (t t' : Str) (m : Option Nat) (h : takeMinutes t = some (m, t')) :
+    t = minutesText m ++ t' := by
+  unfold takeMinutes at h
+  split at h
+  · rename_i r
+    split at h
+    · rename_i v r' hv
+      simp only [Option.some.injEq, Prod.mk.injEq] at h
+      obtain ⟨rfl, rfl⟩ := h
+      rw [takeNum2_inv r r' v hv]; rfl
+    · exact absurd h (by simp)
+  · simp only [Option.some.injEq, Prod.mk.injEq] at h
+    obtain ⟨rfl, rfl⟩ := h
+    rfl
+
+theorem takeMs_inv (t t' : Str) (m : Option Nat) (h : takeMs t = some (m, t')) :
+    t = msText m ++ t' := by
+  unfold takeMs at h
+  split at h
+  · rename_i r
+    split at h
+    · rename_i v r' hv
+      simp only [Option.some.injEq, Prod.mk.injEq] at h
+      obtain ⟨rfl, rfl⟩ := h
+      rw [takeNum3_inv r r' v hv]; rfl
+    · exact absurd h (by simp)
+  · simp only [Option.some.injEq, Prod.mk.injEq] at h
+    obtain ⟨rfl, rfl⟩ := h
+    rfl
+
+theorem offName_inv (sign : Option Bool) (ds : List Nat) (m : Option Nat) (t : Str) (o : OffText)
+    (h : offName sign ds m t = some o) :
+    o.sign = sign ∧ o.hdigits = ds ∧ o.minutes = m ∧ t = nameText o.name := by
+  unfold offName at h
+  split at h
+  · injection h with h; subst h; exact ⟨rfl, rfl, rfl, rfl⟩
+  · injection h with h; subst h; exact ⟨rfl, rfl, rfl, rfl⟩
+  · exact absurd h (by simp)
+
+theorem parseOffBody_inv (sign : Option Bool) (t : Str) (o : OffText) (h : parseOffBody sign t = some o) :
+    o.sign = sign ∧ t = o.hdigits.map dch ++ (minutesText o.minutes ++ nameText o.name) := by
+  unfold parseOffBody at h
+  split at h
+  · exact absurd h (by simp)
+  · rename_i m t' hm
+    obtain ⟨h1, h2, h3, h4⟩ := offName_inv _ _ _ _ _ h
+    have := takeMinutes_inv _ _ _ hm
+    refine ⟨h1, ?_⟩
+    rw [h2, h3, ← h4, ← this]
+    exact spanDigits_inv t
+
+theorem parseOff_inv (b : Str) (o : OffText) (h : parseOff b = some o) : o.render = b := by
+  rw [OffText.render_eq]
+  unfold hoursText
+  unfold parseOff at h
+  split at h
+  · obtain ⟨h1, h2⟩ := parseOffBody_inv _ _ _ h; rw [h1, h2]; rfl
+  · obtain ⟨h1, h2⟩ := parseOffBody_inv _ _ _ h; rw [h1, h2]; rfl
+  · obtain ⟨h1, h2⟩ := parseOffBody_inv _ _ _ h; rw [h1, h2]; rfl
+
+theorem takeOff_inv (t : Str) (off : Option OffText) (h : takeOff t = some off) : t = offText off := by
+  unfold takeOff at h
+  split at h
+  · injection h with h; subst h; rfl
+  · rename_i r
+    split at h
+    · rename_i b hb
+      rw [Option.map_eq_some_iff] at h
+      obtain ⟨o, ho, rfl⟩ := h
+      have := parseOff_inv _ _ ho
+      have hr : r = b.reverse ++ [']'] := by
+        have := congrArg List.reverse hb
+        simpa using this
+      rw [hr, ← this]; rfl
+    · exact absurd h (by simp)
+  · exact absurd h (by simp)
+
+theorem parseTail_inv (t : Str) (ms : Option Nat) (off : Option OffText) (h : parseTail t = some (ms, off)) :
+    t = msText ms ++ offText off := by
+  unfold parseTail at h
+  split at h
+  · exact absurd h (by simp)
+  · rename_i ms' t' hms
+    rw [Option.map_eq_some_iff] at h
+    obtain ⟨off', ho, hx⟩ := h
+    simp only [Prod.mk.injEq] at hx
+    obtain ⟨rfl, rfl⟩ := hx
+    rw [takeMs_inv _ _ _ hms, takeOff_inv _ _ ho]
+
+theorem parseTod_inv (t t' : Str) (h mi s : Nat) (hp : parseTod t = some ((h, mi, s), t')) :
+    t = todText h mi s ++ t' := by
+  unfold parseTod at hp
+  simp only [bind, Option.bind] at hp
+  split at hp
+  · exact absurd hp (by simp)
+  · rename_i x1 h1
+    obtain ⟨a, r1⟩ := x1
+    simp only at hp
+    split at hp
+    · exact absurd hp (by simp)
+    · rename_i x2 h2
+      obtain ⟨b, r2⟩ := x2
+      simp only at hp
+      split at hp
+      · exact absurd hp (by simp)
+      · rename_i x3 h3
+        obtain ⟨c, r3⟩ := x3
+        simp only [pure, Option.some.injEq, Prod.mk.injEq] at hp
+        obtain ⟨⟨rfl, rfl, rfl⟩, rfl⟩ := hp
+        rw [takeNum2_inv _ _ _ h1, takeNum2_inv _ _ _ h2, takeNum2_inv _ _ _ h3]
+        simp [todText]
+
+theorem render_time (h mi s : Nat) (ms : Option Nat) (off : Option OffText) :
+    Parts.render ⟨none, some (h, mi, s), ms, off⟩ = todText h mi s ++ (msText ms ++ offText off) := by
+  cases ms <;> cases off <;> simp [Parts.render, todText, msText, offText]
+
+theorem render_full (y m d h mi s : Nat) (ms : Option Nat) (off : Option OffText) :
+    Parts.render ⟨some (y, m, d), some (h, mi, s), ms, off⟩
+      = dateText y m d ++ (todText h mi s ++ (msText ms ++ offText off)) := by
+  cases ms <;> cases off <;> simp [Parts.render, dateText, todText, msText, offText]
+
+theorem parseShape_inv (isTime : Bool) (s : Str) (p : Parts) (h : parseShape isTime s = some p) : p.render = s := by
+  unfold parseShape at h
+  cases isTime with
+  | true =>
+    simp only [if_true, bind, Option.bind] at h
+    split at h
+    · exact absurd h (by simp)
+    · rename_i x1 h1
+      obtain ⟨⟨hh, mi, sec⟩, t⟩ := x1
+      simp only at h
+      split at h
+      · exact absurd h (by simp)
+      · rename_i x2 h2
+        obtain ⟨ms, off⟩ := x2
+        simp only [pure, Option.some.injEq] at h
+        subst h
+        rw [render_time, parseTod_inv _ _ _ _ _ h1, parseTail_inv _ _ _ h2]
+  | false =>
+    simp only [Bool.false_eq_true, if_false, bind, Option.bind] at h
+    split at h
+    · exact absurd h (by simp)
+    · rename_i x1 h1
+      obtain ⟨y, t1⟩ := x1
+      simp only at h
+      split at h
+      · exact absurd h (by simp)
+      · rename_i x2 h2
+        obtain ⟨m, t2⟩ := x2
+        simp only at h
+        split at h
+        · exact absurd h (by simp)
+        · rename_i x3 h3
+          obtain ⟨d, t3⟩ := x3
+          simp only at h
+          have hs : s = dateText y m d ++ t3 := by
+            rw [takeNum4_inv _ _ _ h1, takeNum2_inv _ _ _ h2, takeNum2_inv _ _ _ h3]
+            simp [dateText]
+          split at h
+          · simp only [pure, Option.some.injEq] at h
+            subst h
+            rw [hs]; simp [Parts.render, dateText]
+          · split at h
+            · exact absurd h (by simp)
+            · rename_i x4 h4
+              obtain ⟨⟨hh, mi, sec⟩, t4⟩ := x4
+              simp only at h
+              split at h
+              · exact absurd h (by simp)
+              · rename_i x5 h5
+                obtain ⟨ms, off⟩ := x5
+                simp only [pure, Option.some.injEq] at h
+                subst h
+                rw [render_full, hs, parseTod_inv _ _ _ _ _ h4, parseTail_inv _ _ _ h5]
+
+/-- the executable recogniser is sound for the declarative notation -/
+theorem parse_sound (isTime : Bool) (s : Str) (p : Parts) (h : parse isTime s = some p) :
+    p.wf isTime = true ∧ p.render = s := by
+  unfold parse at h
+  split at h
+  · rename_i p' hp
+    split at h
+    · rename_i hw
+      injection h with h; subst h
+      exact ⟨hw, parseShape_inv _ _ _ hp⟩
+    · exact absurd h (by simp)
+  · exact absurd h (by simp)
+
+theorem inNotationB_sound (isTime : Bool) (s : Str) (h : inNotationB isTime s = true) : InNotation isTime s := by
+  unfold inNotationB at h
+  cases hp : parse isTime s with
+  | none => rw [hp] at h; simp at h
+  | some p => exact ⟨p, parse_sound _ _ _ hp⟩
 end Ofx.DateTime
